@@ -7,7 +7,7 @@ import numpy as np
 
 def nnls_outside_reliable_region(case, message, params):
     """N1: scipy 1.14.1 nnls (normal equations, *absolute* stopping tolerance 10*max(m,n)*eps on A^T r)
-    is only reliable for cond(A) < 1e3 with column norms and data norm of order one (measured)."""
+    is only reliable for cond(A) < 1e4 (measured; after the scale fix D25 independent of scaling)."""
     from vlib.props import c01
 
     if message.startswith(("RuntimeError", "ValueError")):
